@@ -26,8 +26,8 @@ tvars == <<l, dead, rep, truth, g, d, nref>>
 
 Fn(S, key(_), val(_)) == [k \in {key(x) : x \in S} |-> val(CHOOSE x \in S : key(x) = k)]
 Obs(r) ==
-  [hosts |-> Fn(Range(r.hosts), LAMBDA h : h.id, LAMBDA h : h.addr),
-   byid |-> Fn(Range(r.byid), LAMBDA h : h.id, LAMBDA h : h.addr),
+  [hosts |-> Fn(Range(r.hosts), LAMBDA h : h.id, LAMBDA h : [addr |-> h.addr, n2n |-> h.n2n]),
+   byid |-> Fn(Range(r.byid), LAMBDA h : h.id, LAMBDA h : [addr |-> h.addr, n2n |-> h.n2n]),
    byAddr |-> Fn(Range(r.byaddr), LAMBDA h : h.addr, LAMBDA h : h.id),
    hlist |-> r.hlist,
    poolA |-> Fn(Range(r.pool), LAMBDA h : h.id, LAMBDA h : h.addr),
@@ -55,7 +55,7 @@ StepOf(r, g0, d0) ==
                 \* a status event for an address whose index entry is already lost (reported when
                 \* it was lost) cannot reach the host: what follows is not a second finding
                 g1 == [g00 EXCEPT !.att = [i \in DOMAIN @ |->
-                          IF i \in DOMAIN d0.hosts /\ d0.hosts[i] \in StatusAddrs(evs) /\ d0.hosts[i] \notin DOMAIN d0.byAddr
+                          IF i \in DOMAIN d0.hosts /\ d0.hosts[i].n2n \in StatusAddrs(evs) /\ d0.hosts[i].n2n \notin DOMAIN d0.byAddr
                             THEN "free" ELSE @[i]]]
                 d1 == ApplyStatuses(d0, evs, StatusAddrs(evs), g0.reach)
                 need == BatchNeedsRefresh(d0, evs)
@@ -75,7 +75,8 @@ StepOf(r, g0, d0) ==
        [] OTHER -> \* settle: nothing happens (a late refresh of the same rows is accepted)
             <<IF didRefresh /\ g0.ctl THEN DoRefreshG(g0, r.rows, filt) ELSE g0, d0, 0>>
 
-Healthy(o, a) == \E i \in DOMAIN o.hosts : /\ o.hosts[i] = a /\ a \in DOMAIN o.byAddr /\ o.byAddr[a] = i
+Healthy(o, a) == \E i \in DOMAIN o.hosts : /\ a \in {o.hosts[i].addr, o.hosts[i].n2n}
+                                            /\ o.hosts[i].n2n \in DOMAIN o.byAddr /\ o.byAddr[o.hosts[i].n2n] = i
                                             /\ \E e \in o.polE : e.id = i
 
 \* The model keeps the policy's hosts by id.  The driver's policies keep them by address, so
@@ -83,7 +84,7 @@ Healthy(o, a) == \E i \in DOMAIN o.hosts : /\ o.hosts[i] = a /\ a \in DOMAIN o.b
 \* on the order of internal calls; where the property demands the entry its absence is a
 \* violation (policy-missing-host-after-id-replacement), elsewhere it is not compared.
 SameD(x, y, gg) ==
-  LET mv == {i \in DOMAIN x.hosts : x.hosts[i] \in gg.moved} IN
+  LET mv == {i \in DOMAIN x.hosts : x.hosts[i].addr \in gg.moved} IN
   /\ x.hosts = y.hosts /\ x.byAddr = y.byAddr /\ x.pool = y.pool /\ x.pol \ mv = y.pol \ mv /\ x.down = y.down
   /\ Range(x.hlist) = Range(y.hlist)
 
